@@ -759,6 +759,9 @@ func (fv *FV) execRange(st *State, x *ast.RangeStmt, label string, ctl *Ctl, k K
 		if ko != nil {
 			it.vars[ko] = fv.fresh(ko.Name(), fv.ss.Of(ko.Type()))
 			delete(it.alias, ko)
+			for _, f := range fv.unsignedFacts(it.vars[ko], ko.Type(), 3) {
+				it.assume(T(f, SBool))
+			}
 		}
 		fv.mention(it, ls, bodyPos)
 		endIter := func(s2 *State) {
